@@ -30,7 +30,22 @@ pub fn run(case: &str, st: &mut Stats) -> Outcome {
             let a = (0..t.len()).find(|a| t[*a] != spec[k][*a]).unwrap();
             fails.push(format!("pool entry {k} ({:?}) evaluates to {} on assignment {a:#b}, the operation's definition gives {}", prog.ops[k], t[a], spec[k][a]));
         }
+        // the same walk through the public complement-edge accessors (low()/high() push the
+        // complement to the children, var(), is_neg(), neg()): they must describe the same function
+        fn eval_acc(p: BddPtr, a: usize) -> bool {
+            match p {
+                BddPtr::PtrTrue => true,
+                BddPtr::PtrFalse => false,
+                _ => if (a >> p.var_safe().unwrap().value()) & 1 == 1 { eval_acc(p.high(), a) } else { eval_acc(p.low(), a) },
+            }
+        }
+        if let Some(a) = (0..t.len()).find(|a| eval_acc(*p, *a) != t[*a] || eval_acc(p.neg(), *a) == t[*a]) {
+            fails.push(format!("pool entry {k}: walking with low()/high()/neg() disagrees with walking the raw node fields on assignment {a:#b}"));
+        }
         if let BddPtr::Reg(n) | BddPtr::Compl(n) = p {
+            if p.is_neg() != matches!(p, BddPtr::Compl(_)) || p.low_raw() != n.low || p.high_raw() != n.high || p.neg().neg() != *p {
+                fails.push(format!("pool entry {k}: is_neg / low_raw / high_raw / neg do not describe the pointer"));
+            }
             if !n.low.is_const() || !n.high.is_const() {
                 nontrivial = true;
             }
@@ -42,4 +57,4 @@ pub fn run(case: &str, st: &mut Stats) -> Outcome {
     Outcome { result: pool_line(&pool), fails, nontrivial }
 }
 
-use rsdd::repr::BddPtr;
+use rsdd::repr::{BddPtr, DDNNFPtr};
